@@ -56,6 +56,12 @@ type Writer struct {
 		// indexStart is set when the tail is sealed indicating the file offset at
 		// which the index array was written.
 		indexStart uint64
+
+		// staleTail is set while bytes may sit in the file behind writeOffset that
+		// no commit covers: a write was attempted and the append or seal it
+		// belonged to has not (yet) succeeded. A failed Append or ForceSeal rolls
+		// writeOffset back but cannot take back what reached the file.
+		staleTail bool
 	}
 
 	info types.SegmentInfo
@@ -497,6 +503,17 @@ func (w *Writer) flush() error {
 }
 
 func (w *Writer) sync() error {
+	// A failed append or seal left what it wrote behind the offset it rolled back
+	// to. Remove that before writing over (part of) it: this batch may be
+	// shorter, and the remainder would otherwise follow the new tail, to be read
+	// as frames by the next recovery. If it can't be removed refuse the write.
+	if w.writer.staleTail {
+		if err := w.clearStaleTail(); err != nil {
+			return err
+		}
+	}
+	w.writer.staleTail = true
+
 	// Write out current buffer to file
 	if err := w.flush(); err != nil {
 		return err
@@ -506,6 +523,8 @@ func (w *Writer) sync() error {
 	if err := w.wf.Sync(); err != nil {
 		return err
 	}
+	// Everything written is covered by the commit frame that was just synced.
+	w.writer.staleTail = false
 
 	// Update commitIdx atomically
 	offsets := w.getOffsets()
